@@ -405,6 +405,8 @@ pub struct C10Config {
     pub trials: usize,
     /// Extra evidence produced by sanitizer stages (filled in by the driver script).
     pub stage_notes: Option<String>,
+    /// Small threaded trials (for interpreters).
+    pub small: bool,
 }
 
 #[derive(Serialize, Deserialize)]
@@ -446,8 +448,8 @@ pub fn run_check(cfg: &C10Config) -> (usize, Option<String>) {
     let mut thread_counts = BTreeSet::new();
     for k in 0..cfg.trials {
         let mut r = Rng::new(cfg.seed.wrapping_mul(6151).wrapping_add(k as u64));
-        let threads = r.range(2, 15);
-        let clones = r.range(1, 50);
+        let threads = if cfg.small { r.range(2, 3) } else { r.range(2, 15) };
+        let clones = if cfg.small { r.range(1, 3) } else { r.range(1, 50) };
         thread_counts.insert(threads);
         let o = run_threaded(cfg.seed.wrapping_mul(977).wrapping_add(k as u64), threads, clones, k % 4 == 0);
         t_gcs += o.gcs;
@@ -474,7 +476,7 @@ pub fn run_check(cfg: &C10Config) -> (usize, Option<String>) {
         records.push(json!({"signature": sig, "count": count, "message": msg, "replay": path}));
     }
     let distinct = shapes.len() + orderings.len();
-    let inconclusive = if shapes.len() < 20 || (cfg.trials > 0 && t_between == 0) {
+    let inconclusive = if cfg.small { None } else if shapes.len() < 20 || (cfg.trials > 0 && t_between == 0) {
         Some(format!("coverage floor not met: {} single-threaded shapes, {} collections between first and last drop in threaded trials", shapes.len(), t_between))
     } else {
         None
